@@ -852,6 +852,14 @@ def sec_mixed_effects(ck):
                 Y, V1 = data(n, p)
                 ncase += 1
                 form["oned"] = (ncase % 2 == 0)
+                if p == 1 and not form["oned"]:
+                    try:                                       # defect repaired by cd07de9: keep the run going if it returns
+                        ME.MixedEffectsModel(X, n_iter=0).fit(Y, V1)
+                    except Exception as e:  # noqa
+                        ck.fail("mixed_effects/n_tests=1-as-column-rejected",
+                                "MixedEffectsModel(X %s).fit(Y, V1) with Y, V1 of shape (%d, 1) raises %s: %s" % (kind, n, type(e).__name__, e),
+                                {"X": X.tolist(), "Y": Y.tolist(), "V1": V1.tolist()})
+                        form["oned"] = True
                 ck.count(("mfx", kind, n, p, n_iter, ncase), bucket="mixed_effects:fit-%s" % kind)
                 m = ME.MixedEffectsModel(X, n_iter=n_iter)
                 # oracle contract sampled: numpy's pinv is the Moore-Penrose inverse
@@ -911,56 +919,61 @@ def sec_mixed_effects(ck):
                                  "sequence": [{"call": "fit", "Y": a.tolist(), "V1": b.tolist()} for (a, b) in seq] + [{"call": "fit", "Y": Y.tolist(), "V1": V1.tolist()}],
                                  "reused_object": tolist(state(obj)), "fresh_object": tolist(fresh)})
                 # wrappers agree with the class / the definition
-                if kind in ("one", "two", "cov"):
-                    col = X.shape[1] - 1 if kind != "one" else 0
-                    X0 = X * (1 - np.eye(X.shape[1])[col])
-                    m0 = ME.MixedEffectsModel(X0, n_iter=n_iter).fit(Y, V1)
-                    m1 = ME.MixedEffectsModel(X, n_iter=n_iter).fit(Y, V1)
-                    f_ref = np.maximum(0, 2 * (m1.log_like(Y, V1) - m0.log_like(Y, V1)))
-                    t_ref = np.sqrt(f_ref) * np.sign(m1.beta_[col])
-                    out = ME.mfx_stat(Y, V1, X, col, n_iter=n_iter, return_t=True, return_f=True)
-                    ck.count(("mfx-stat", kind, n, p, n_iter, ncase), bucket="mixed_effects:mfx_stat")
-                    if not (len(out) == 2 and close(out[0], t_ref) and close(out[1], f_ref)):
-                        ck.fail("mixed_effects/mfx_stat-not-likelihood-ratio", "mfx_stat(t, f) differs from sign(beta) sqrt(2 (ll1 - ll0)) computed from two class fits",
-                                {"X": X.tolist(), "column": col, "n_iter": n_iter, "Y": Y.tolist(), "V1": V1.tolist()})
-                    out4 = ME.mfx_stat(Y, V1, X, col, n_iter=n_iter, return_t=False, return_f=False, return_effect=True, return_var=True)
-                    if len(out4) == 2 and close(out4[0], m1.V2) and close(out4[1], m1.beta_[col]) and not close(out4[0], m1.beta_[col]):
-                        ck.fail("mixed_effects/mfx_stat-returns-var-before-effect",
-                                "mfx_stat(return_effect=True, return_var=True) returns (var, effect); the docstring promises (tstat, fstat, effect, var)",
-                                {"X": X.tolist(), "column": col, "Y": Y.tolist(), "V1": V1.tolist(), "out": [np.asarray(o).tolist() for o in out4]})
-                    elif not (len(out4) == 2 and close(out4[0], m1.beta_[col]) and close(out4[1], m1.V2)):
-                        ck.fail("mixed_effects/mfx_stat-effect-var", "mfx_stat effect/var outputs are not beta_[column] / V2 of the full model",
-                                {"X": X.tolist(), "column": col, "Y": Y.tolist(), "V1": V1.tolist()})
-                    outa = ME.mfx_stat(Y, V1, X, col, n_iter=n_iter, return_t=True, return_f=True, return_effect=True, return_var=True)
-                    if len(outa) == 4 and close(outa[0], t_ref) and close(outa[1], f_ref) and close(outa[2], m1.V2) and close(outa[3], m1.beta_[col]) \
-                            and not close(outa[2], m1.beta_[col]):
-                        ck.fail("mixed_effects/mfx_stat-returns-var-before-effect",
-                                "mfx_stat(all four outputs) returns (t, f, var, effect); documented order is (tstat, fstat, effect, var)",
-                                {"X": X.tolist(), "column": col, "Y": Y.tolist(), "V1": V1.tolist()})
-                    elif not (len(outa) == 4 and close(outa[0], t_ref) and close(outa[1], f_ref) and close(outa[2], m1.beta_[col]) and close(outa[3], m1.V2)):
-                        ck.fail("mixed_effects/mfx_stat-output-order", "mfx_stat(all outputs) is not (tstat, fstat, effect, var)",
-                                {"X": X.tolist(), "column": col, "Y": Y.tolist(), "V1": V1.tolist()})
-                    if kind == "one":
-                        t1 = ME.one_sample_ttest(Y, V1, n_iter=n_iter)
-                        f1 = ME.one_sample_ftest(Y, V1, n_iter=n_iter)
-                        if not (close(t1, t_ref) and close(f1, f_ref)):
-                            ck.fail("mixed_effects/one_sample-wrapper", "one_sample_ttest/ftest differ from mfx_stat with X = ones, column 0",
-                                    {"n_iter": n_iter, "Y": Y.tolist(), "V1": V1.tolist()})
-                        tn = ME.one_sample_ttest(-Y, V1, n_iter=n_iter)
-                        if not close(tn, -np.asarray(t1), 1e-9):
-                            ck.fail("mixed_effects/one_sample-not-antisymmetric", "one_sample_ttest(-Y, V1) != -one_sample_ttest(Y, V1)",
-                                    {"n_iter": n_iter, "Y": Y.tolist(), "V1": V1.tolist()})
-                    if kind == "two":
-                        g = X[:, 1]
-                        t2 = ME.two_sample_ttest(Y, V1, g, n_iter=n_iter)
-                        f2 = ME.two_sample_ftest(Y, V1, g, n_iter=n_iter)
-                        if not (close(t2, t_ref) and close(f2, f_ref)):
-                            ck.fail("mixed_effects/two_sample-wrapper", "two_sample_ttest/ftest differ from mfx_stat with X = [1, group], column 1",
-                                    {"n_iter": n_iter, "group": g.tolist(), "Y": Y.tolist(), "V1": V1.tolist()})
-                        ts = ME.two_sample_ttest(Y, V1, 1 - g, n_iter=n_iter)
-                        if not close(ts, -np.asarray(t2), 1e-8):
-                            ck.fail("mixed_effects/two_sample-label-swap", "two_sample_ttest with swapped labels != -two_sample_ttest",
-                                    {"n_iter": n_iter, "group": g.tolist(), "Y": Y.tolist(), "V1": V1.tolist()})
+                try:
+                    if kind in ("one", "two", "cov"):
+                        col = X.shape[1] - 1 if kind != "one" else 0
+                        X0 = X * (1 - np.eye(X.shape[1])[col])
+                        m0 = ME.MixedEffectsModel(X0, n_iter=n_iter).fit(Y, V1)
+                        m1 = ME.MixedEffectsModel(X, n_iter=n_iter).fit(Y, V1)
+                        f_ref = np.maximum(0, 2 * (m1.log_like(Y, V1) - m0.log_like(Y, V1)))
+                        t_ref = np.sqrt(f_ref) * np.sign(m1.beta_[col])
+                        out = ME.mfx_stat(Y, V1, X, col, n_iter=n_iter, return_t=True, return_f=True)
+                        ck.count(("mfx-stat", kind, n, p, n_iter, ncase), bucket="mixed_effects:mfx_stat")
+                        if not (len(out) == 2 and close(out[0], t_ref) and close(out[1], f_ref)):
+                            ck.fail("mixed_effects/mfx_stat-not-likelihood-ratio", "mfx_stat(t, f) differs from sign(beta) sqrt(2 (ll1 - ll0)) computed from two class fits",
+                                    {"X": X.tolist(), "column": col, "n_iter": n_iter, "Y": Y.tolist(), "V1": V1.tolist()})
+                        out4 = ME.mfx_stat(Y, V1, X, col, n_iter=n_iter, return_t=False, return_f=False, return_effect=True, return_var=True)
+                        if len(out4) == 2 and close(out4[0], m1.V2) and close(out4[1], m1.beta_[col]) and not close(out4[0], m1.beta_[col]):
+                            ck.fail("mixed_effects/mfx_stat-returns-var-before-effect",
+                                    "mfx_stat(return_effect=True, return_var=True) returns (var, effect); the docstring promises (tstat, fstat, effect, var)",
+                                    {"X": X.tolist(), "column": col, "Y": Y.tolist(), "V1": V1.tolist(), "out": [np.asarray(o).tolist() for o in out4]})
+                        elif not (len(out4) == 2 and close(out4[0], m1.beta_[col]) and close(out4[1], m1.V2)):
+                            ck.fail("mixed_effects/mfx_stat-effect-var", "mfx_stat effect/var outputs are not beta_[column] / V2 of the full model",
+                                    {"X": X.tolist(), "column": col, "Y": Y.tolist(), "V1": V1.tolist()})
+                        outa = ME.mfx_stat(Y, V1, X, col, n_iter=n_iter, return_t=True, return_f=True, return_effect=True, return_var=True)
+                        if len(outa) == 4 and close(outa[0], t_ref) and close(outa[1], f_ref) and close(outa[2], m1.V2) and close(outa[3], m1.beta_[col]) \
+                                and not close(outa[2], m1.beta_[col]):
+                            ck.fail("mixed_effects/mfx_stat-returns-var-before-effect",
+                                    "mfx_stat(all four outputs) returns (t, f, var, effect); documented order is (tstat, fstat, effect, var)",
+                                    {"X": X.tolist(), "column": col, "Y": Y.tolist(), "V1": V1.tolist()})
+                        elif not (len(outa) == 4 and close(outa[0], t_ref) and close(outa[1], f_ref) and close(outa[2], m1.beta_[col]) and close(outa[3], m1.V2)):
+                            ck.fail("mixed_effects/mfx_stat-output-order", "mfx_stat(all outputs) is not (tstat, fstat, effect, var)",
+                                    {"X": X.tolist(), "column": col, "Y": Y.tolist(), "V1": V1.tolist()})
+                        if kind == "one":
+                            t1 = ME.one_sample_ttest(Y, V1, n_iter=n_iter)
+                            f1 = ME.one_sample_ftest(Y, V1, n_iter=n_iter)
+                            if not (close(t1, t_ref) and close(f1, f_ref)):
+                                ck.fail("mixed_effects/one_sample-wrapper", "one_sample_ttest/ftest differ from mfx_stat with X = ones, column 0",
+                                        {"n_iter": n_iter, "Y": Y.tolist(), "V1": V1.tolist()})
+                            tn = ME.one_sample_ttest(-Y, V1, n_iter=n_iter)
+                            if not close(tn, -np.asarray(t1), 1e-9):
+                                ck.fail("mixed_effects/one_sample-not-antisymmetric", "one_sample_ttest(-Y, V1) != -one_sample_ttest(Y, V1)",
+                                        {"n_iter": n_iter, "Y": Y.tolist(), "V1": V1.tolist()})
+                        if kind == "two":
+                            g = X[:, 1]
+                            t2 = ME.two_sample_ttest(Y, V1, g, n_iter=n_iter)
+                            f2 = ME.two_sample_ftest(Y, V1, g, n_iter=n_iter)
+                            if not (close(t2, t_ref) and close(f2, f_ref)):
+                                ck.fail("mixed_effects/two_sample-wrapper", "two_sample_ttest/ftest differ from mfx_stat with X = [1, group], column 1",
+                                        {"n_iter": n_iter, "group": g.tolist(), "Y": Y.tolist(), "V1": V1.tolist()})
+                            ts = ME.two_sample_ttest(Y, V1, 1 - g, n_iter=n_iter)
+                            if not close(ts, -np.asarray(t2), 1e-8):
+                                ck.fail("mixed_effects/two_sample-label-swap", "two_sample_ttest with swapped labels != -two_sample_ttest",
+                                        {"n_iter": n_iter, "group": g.tolist(), "Y": Y.tolist(), "V1": V1.tolist()})
+                except Exception as e:  # noqa
+                    ck.fail("mixed_effects/n_tests=1-as-column-rejected" if p == 1 else "mixed_effects/wrapper-raises",
+                            "mfx_stat / one_sample_* / two_sample_* wrapper raised %s: %s (X %s, Y of shape (%d, %d))" % (type(e).__name__, e, kind, n, p),
+                            {"X": X.tolist(), "n_iter": n_iter, "Y": Y.tolist(), "V1": V1.tolist()})
 
     def show(t):
         return "(let r := fit_method %s %s %s fresh_obj %s %s in (fit_V2 r, fit_beta r))" % (cqmat(t[1]), cqmat(t[2]), cnat(t[3]), cql(t[4]), cql(t[5]))
